@@ -30,8 +30,24 @@ def t3(sx, nbr, nbw, nmaxb, oldlens, lens, emulated):
     return ndefflow.cutflow(sx, w, n)
 
 
+def t4(sx, ver, mle, mlc, mfs, oldlens, lens, typ, fsci):
+    oldlen = sx.pick("oldlen", oldlens)
+    mle = sx.int("mle", mle[0], mle[1])
+    mlc = sx.int("mlc", mlc[0], mlc[1])
+    w = worlds.T4World(sx, ver, mle, mlc, mfs, oldlen, typ=typ, fsci=fsci)
+    n = sx.pick("n", [x for x in lens_for(w.cap, lens) if x <= w.cap])
+    return ndefflow.cutflow(sx, w, n)
+
+
 def partitions(tier):
     parts = []
+    for ver, typ, fsci in [(0x20, "A", 8), (0x30, "B", 5)]:
+        parts.append(dict(name="t4:%02x:%s:%d:small" % (ver, typ, fsci), fn="t4",
+                          params=dict(ver=ver, mle=[15, 0xFFFF], mlc=[1, 0xFFFF], mfs=16,
+                                      oldlens=[0, 3], lens=[0, 1, 7, "cap"], typ=typ, fsci=fsci)))
+    parts.append(dict(name="t4:20:A:8:big", fn="t4",
+                      params=dict(ver=0x20, mle=[255, 255], mlc=[100, 0xFFFF], mfs=300,
+                                  oldlens=[257], lens=[256, "cap"], typ="A", fsci=8)))
     for emulated in (False, True):
         for nbr, nbw, nmaxb in [(1, 1, 3), (4, 3, 5), (15, 13, 14), (3, 2, 4)]:
             parts.append(dict(name="t3%s:%d:%d:%d" % ("emu" if emulated else "", nbr, nbw, nmaxb),
